@@ -180,13 +180,16 @@ chk('C05', 'model_checking',
     'compared step by step (sweeps: pass, skip, input; adoption chain; file '
     'at exit); the generator of a parallel ddmin round is slowed down '
     'between its test of `stopped` and its read of the current input (the '
-    'model\'s GenBegin/GenEnd window).',
+    'model\'s GenBegin/GenEnd window). Every behaviour of sequential ddmin '
+    'over 4 assertions (DdminEmit.tla; thorough: 5 and 6) is replayed with '
+    '-j 1: the inputs written by the first mutator must be the behaviour\'s '
+    'chain.',
     STRAT_NOTE,
     'TLC model checking of all interleavings + TLC trace validation of '
     'free-running and schedule-enumerated parallel executions + replay of '
     'TLC-generated behaviours into the real strategy',
     'Hier.tla, HierBad.tla, HierSched.tla, Ddmin.tla, DdminBad.tla, '
-    'DdminOuter.tla, '
+    'DdminEmit.tla, DdminOuter.tla, '
     'Session.tla, TraceHier.tla, TraceDdmin.tla, TraceDdminOuter.tla, '
     'TraceSession.tla',
     'DESIGN.md section 5, C05')
@@ -401,6 +404,9 @@ ENGINES = [
      'and replayed into strategy_hierarchical.reduce'),
     ('Ddmin.tla', 'specs/Ddmin.tla',
      'TLA+ spec: strategy_ddmin (_check_par/_check_seq, TaskGenerator)'),
+    ('DdminEmit.tla', 'specs/DdminEmit.tla',
+     'TLA+ spec: Ddmin.tla in sequential mode as a generator of complete '
+     'behaviours, replayed into strategy_ddmin with one job (lib/dreplay.py)'),
     ('HierBad.tla', 'specs/HierBad.tla',
      'TLA+ spec: faulty variants of Hier.tla that its properties must refute'),
     ('DdminBad.tla', 'specs/DdminBad.tla',
